@@ -582,9 +582,12 @@ class Parser:
             else:
                 raise ValueError(f"{self.file_stack[-1]}: Malformed expression {parsed_expr}")
 
-    def create_envvar(self, name: str) -> "Symbol":
+    def create_envvar(self, name: str, bare: bool = False) -> "Symbol":
         """
         Creates an environment variable from a string
+
+        bare: the reference was written without brackets ($NAME); an unset variable then keeps that spelling,
+        as it does when the reference is embedded in a longer string (and as parser v1 does).
         """
         if name in os.environ:
             self.kconfig.env_vars.add(name)
@@ -593,7 +596,7 @@ class Parser:
         else:
             # If the given name is not in the environment variables, we set the value
             # to the name itself (e.g. "${ENVAR_NAME}")
-            env_var_sym = self.kconfig._lookup_const_sym(f"${{{name}}}")  # will expand to ${ENVAR_NAME}
+            env_var_sym = self.kconfig._lookup_const_sym(f"${name}" if bare else f"${{{name}}}")  # ${ENVAR_NAME}
         return env_var_sym
 
     def _expand_string_vars(self, s: str) -> str:
@@ -667,7 +670,7 @@ class Parser:
                     return self._const_sym_with_embedded_vars("$" + expr)
                 else:
                     # Bare $NAME (no brackets) spanning the whole value — environment variable only
-                    return self.create_envvar(expr)
+                    return self.create_envvar(expr, bare=True)
 
             else:  # symbol
                 if expr in ("n", "'n'", '"n"'):
